@@ -161,8 +161,8 @@ let register (reg : string -> (string list -> string) -> unit) =
     | [ms; ps] -> string_of_z (max_pages_of (z_of_string ms) (z_of_string ps))
     | _ -> failwith "args");
   reg "rollbacktruncate" (fun a -> match a with
-    | [me; de; sz; ps; mp] ->
-      (match rollback_truncate (z_of_string me) (z_of_string de) (z_of_string sz) (z_of_string ps) (z_of_string mp) with
+    | [me; de; oe; sz; ps; mp] ->
+      (match rollback_truncate (z_of_string me) (z_of_string de) (z_of_string oe) (z_of_string sz) (z_of_string ps) (z_of_string mp) with
        | Some n -> string_of_z n | None -> "none")
     | _ -> failwith "args");
   reg "checktruncate" (fun a -> match a with
